@@ -151,6 +151,12 @@ func genOffenderItem(t *sim.Tape, g *wl.Gen, ns string, i int, o *Outcome) ([]by
 		// (a matcher must not take exponential time under the command mutex)
 		key := ns + strings.Repeat("a", 56)
 		pat := strings.Repeat("*a", 22) + "*b"
+		if t.Draw(24, "deepnest") == 23 {
+			// ... or a request buried under a hundred thousand array headers (every level costs stack)
+			depth := []int{60000, 100000, 150000}[t.Draw(3, "depth")]
+			o.stat("deep_nesting_attacks", 1)
+			return append([]byte(strings.Repeat("*1\r\n", depth)), resp.Cmd("PING")...), fmt.Sprintf("PING under %d nested array headers", depth)
+		}
 		var a []string
 		switch t.Draw(3, "cxkind") {
 		case 0:
@@ -337,6 +343,9 @@ func runC07(t *testing.T, tape *sim.Tape, tier string) *Outcome {
 		c := cl.addClient(fmt.Sprintf("off%d", j), addr, items)
 		c.Lockstep = tape.Draw(2, "lockstep") == 0
 		c.Chunk = tape.Draw(4, "chunkmode")
+		if len(c.stream) > 100000 {
+			c.Chunk = 0 // several hundred KB are delivered in large pieces
+		}
 		switch tape.Draw(5, "offend") {
 		case 0:
 			c.End = endPlan{Mode: -1}
